@@ -1448,6 +1448,145 @@ impl<'a> PublicRangeFinder<'a> {
   }
 }
 
+/// Verification hooks (only compiled with `--cfg denoland_deno_graph_verif`):
+/// the request bookkeeping (`NamedSubset`, `Exports`, `ImportedExports`,
+/// `HandledExports`, `PendingTraces`) driven from outside, printed in
+/// insertion order.
+#[cfg(denoland_deno_graph_verif)]
+pub mod verif {
+  use super::*;
+
+  #[derive(Debug, Clone)]
+  pub enum TreeOp {
+    Add(String),
+    AddQualified(String, Vec<String>),
+    AddNamed(String, ExportsSpec),
+  }
+
+  #[derive(Debug, Clone)]
+  pub enum ExportsSpec {
+    All,
+    Subset(Vec<TreeOp>),
+  }
+
+  #[derive(Debug, Clone)]
+  pub enum RecordSpec {
+    Star,
+    StarWithDefault,
+    Subset(Vec<TreeOp>),
+  }
+
+  fn build_tree(ops: &[TreeOp]) -> NamedSubset {
+    let mut tree = NamedSubset::default();
+    for op in ops {
+      match op {
+        TreeOp::Add(name) => tree.add(name.clone()),
+        TreeOp::AddQualified(name, parts) => {
+          tree.add_qualified(name.clone(), parts)
+        }
+        TreeOp::AddNamed(name, exports) => {
+          tree.add_named(name.clone(), build_exports(exports))
+        }
+      }
+    }
+    tree
+  }
+
+  fn build_exports(spec: &ExportsSpec) -> Exports {
+    match spec {
+      ExportsSpec::All => Exports::All,
+      ExportsSpec::Subset(ops) => Exports::Subset(build_tree(ops)),
+    }
+  }
+
+  fn build_record(spec: &RecordSpec) -> ImportedExports {
+    match spec {
+      RecordSpec::Star => ImportedExports::Star,
+      RecordSpec::StarWithDefault => ImportedExports::StarWithDefault,
+      RecordSpec::Subset(ops) => ImportedExports::Subset(build_tree(ops)),
+    }
+  }
+
+  fn show_exports(exports: &Exports) -> String {
+    match exports {
+      Exports::All => "*".to_string(),
+      Exports::Subset(tree) => format!("{{{}}}", show_tree(tree)),
+    }
+  }
+
+  fn show_tree(tree: &NamedSubset) -> String {
+    tree
+      .0
+      .iter()
+      .map(|(k, v)| format!("{}:{}", k, show_exports(v)))
+      .collect::<Vec<_>>()
+      .join(",")
+  }
+
+  fn show_record(record: &ImportedExports) -> String {
+    match record {
+      ImportedExports::Star => "star".to_string(),
+      ImportedExports::StarWithDefault => "star+default".to_string(),
+      ImportedExports::Subset(tree) => format!("{{{}}}", show_tree(tree)),
+    }
+  }
+
+  /// The tree built by the operations.
+  pub fn tree(ops: &[TreeOp]) -> String {
+    show_tree(&build_tree(ops))
+  }
+
+  /// `NamedSubset::from_parts`.
+  pub fn from_parts(parts: &[String]) -> String {
+    show_tree(&NamedSubset::from_parts(parts))
+  }
+
+  /// `NamedSubset::extend`: the merged tree and the difference.
+  pub fn extend(a: &[TreeOp], b: &[TreeOp]) -> (String, String) {
+    let mut a = build_tree(a);
+    let difference = a.extend(build_tree(b));
+    (show_tree(&a), show_tree(&difference))
+  }
+
+  /// `HandledExports::add` for one module over a sequence of requests: the
+  /// final record and the difference handed on at every step.
+  pub fn handled(requests: &[RecordSpec]) -> (String, Vec<Option<String>>) {
+    let specifier = ModuleSpecifier::parse("file:///m.ts").unwrap();
+    let mut handled = HandledExports::default();
+    let mut differences = Vec::new();
+    for request in requests {
+      differences.push(
+        handled
+          .add(&specifier, build_record(request))
+          .map(|d| show_record(&d)),
+      );
+    }
+    (
+      handled
+        .0
+        .get(&specifier)
+        .map(show_record)
+        .unwrap_or_default(),
+      differences,
+    )
+  }
+
+  /// `PendingTraces::add` for one module over a sequence of requests: what
+  /// is popped afterwards.
+  pub fn pending(requests: &[RecordSpec]) -> String {
+    let specifier = ModuleSpecifier::parse("file:///m.ts").unwrap();
+    let nv = PackageNv::from_str("@s/p@1.0.0").unwrap();
+    let mut pending = PendingTraces::default();
+    for request in requests {
+      pending.add(nv.clone(), specifier.clone(), build_record(request));
+    }
+    pending
+      .pop()
+      .map(|t| show_record(&t.exports_to_trace))
+      .unwrap_or_default()
+  }
+}
+
 fn is_module_typed(module: &crate::Module) -> bool {
   match module {
     crate::Module::Js(m) => {
